@@ -53,6 +53,14 @@ pub static mut PRELOAD_N: u16 = 0;
 pub static mut PRELOAD_CHUNK: usize = 0;
 pub static mut PRELOAD_BYTES: [u8; CAP] = [0; CAP];
 
+/// Injected retry count of the first inner receive loop that is entered (None: untouched).
+pub static mut START_RETRY: Option<u32> = None;
+
+/// One-shot: the first call returns the injected count, every later call its argument.
+pub fn start_retry(current: u32) -> u32 {
+    unsafe { START_RETRY.take().unwrap_or(current) }
+}
+
 pub fn start_block(default: u16) -> u16 {
     unsafe { START_BLOCK.unwrap_or(default) }
 }
